@@ -232,6 +232,9 @@ func derivesFromPhi(v ssa.Value, ph *ssa.Phi, depth int) bool {
 // (E10-A5). The written timecodes therefore have to be boundary + the same offset, or a file read
 // and written again has every timecode moved by the offset. Rule: the set of offset fields the
 // reader subtracts equals the set the writer adds (compared by GSI field name).
+// offsetResolve maps a helper parameter to what its call sites pass (set while a rule runs; rules run one at a time).
+var offsetResolve func(ssa.Value) ssa.Value
+
 func canonOffsetName(f string) string {
 	f = strings.ToLower(f)
 	return strings.TrimPrefix(f, "stl")
@@ -240,6 +243,9 @@ func canonOffsetName(f string) string {
 func offsetTerms(v ssa.Value, sign int, plus, minus strset, depth int) {
 	if depth > 6 {
 		return
+	}
+	if offsetResolve != nil {
+		v = offsetResolve(v)
 	}
 	switch t := v.(type) {
 	case *ssa.BinOp:
@@ -270,6 +276,7 @@ func offsetTerms(v ssa.Value, sign int, plus, minus strset, depth int) {
 
 func ruleSTLOffsetSymmetry(p *Prog, l *Ledger, tier string) {
 	const rule = "E10.A11-stl-offset-symmetry"
+	defer func() { offsetResolve = nil }()
 	rd := anchor(p, l, rule, "ReadFromSTL")
 	wr := anchor(p, l, rule, "ttiBlock.bytes")
 	if rd == nil || wr == nil {
@@ -280,7 +287,14 @@ func ruleSTLOffsetSymmetry(p *Prog, l *Ledger, tier string) {
 		key := rule + "|" + pair[0]
 		// reader
 		rPlus, rMinus := strset{}, strset{}
-		vals := fieldStores(rd.Blocks, "Item")[pair[0]]
+		var rblocks []*ssa.BasicBlock
+		for _, h := range p.Helpers(rd) {
+			if fnPkg(h) == p.LibSSA {
+				rblocks = append(rblocks, h.Blocks...)
+			}
+		}
+		offsetResolve = func(v ssa.Value) ssa.Value { return p.rootValue(rd, v) }
+		vals := fieldStores(rblocks, "Item")[pair[0]]
 		if len(vals) == 0 {
 			l.Undecide(rule, "ReadFromSTL", key, "", "no store to Item."+pair[0]+" in ReadFromSTL")
 			continue
@@ -304,6 +318,7 @@ func ruleSTLOffsetSymmetry(p *Prog, l *Ledger, tier string) {
 				}
 			}
 		}
+		offsetResolve = nil
 		if !found {
 			l.Undecide(rule, "ttiBlock.bytes", key, "", "the call formatting "+pair[1]+" was not found in ttiBlock.bytes")
 			continue
